@@ -21,5 +21,14 @@ Proof. reflexivity. Qed.
 Lemma gen_v2_ok : gen_v2_checks_serialized = true.
 Proof. reflexivity. Qed.
 
+(* encode_v2 checks the frame content it is about to send against the limit the reader applies *)
+Lemma gen_v2_frame_ok : gen_v2_checks_frame = true.
+Proof. reflexivity. Qed.
+
+(* EmbeddingValidator::validate checks that positions and values are parallel, that EVERY position is inside
+   the dimension, and that positions are strictly ascending *)
+Lemma gen_validator_ok : VC gen_vc_lens gen_vc_bounds_all gen_vc_sorted = VC true true true.
+Proof. reflexivity. Qed.
+
 Lemma gen_flags_ok : gen_flag_none = 0 /\ gen_flag_lz4 = 1 /\ gen_max_decompressed < W32.
 Proof. repeat split. Qed.
